@@ -235,11 +235,18 @@ def closure_of(ctx, body, operand, depth=6):
     return None, []
 
 
+RESULT_COMB = re.compile(r'result::Result::<.*>::(map|and_then)::<')
+
+
 def per_state_closure(ctx, parent, mapcall, ty):
-    """Does the closure handed to `samples.map(..)` compute, for the state it is given, `.0` of `<ty as Evaluate>::evaluate(self, state)`
-    with the parent's own self, on each of its successful returns?  -> (closure, the evaluate call) or (closure, None)"""
+    """Does the closure K handed to `samples.map(..)` compute, for the state it is given, `.0` of `<ty as Evaluate>::evaluate(self, state)`
+    with the parent's own self, on each of its successful returns?  The ways K may hand that value back:
+        let (v, ids) = self.evaluate(s)?; ..; Ok(v)                      `?` + Ok
+        match self.evaluate(s) { Ok((v, ids)) => { ..; Ok(v) } Err(e) => Err(e) }      tail match
+        self.evaluate(s).map(|(v, ids)| { ..; v })                       combinator; also .and_then(|(v, ids)| { ..; Ok(v) })
+    -> (K, the evaluate call, bodies in which the used ids may be recorded) or (K, None, [])"""
     K, caps = closure_of(ctx, parent, mapcall.args[1]) if len(mapcall.args) == 2 else (None, [])
-    if K is None: return None, None
+    if K is None: return None, None, []
     for c in K.calls:
         if c.item != 'evaluate' or not (c.trait or '').endswith('Evaluate') or not re.search(re.escape(ty) + '$', c.self_ty or ''): continue
         fs, root, calls = T.access_path(K, c.args[0])
@@ -249,14 +256,40 @@ def per_state_closure(ctx, parent, mapcall, ty):
         sfs, sroot, scalls = T.access_path(K, c.args[1])
         if sroot != 2 or sfs: continue                                           # the state handed to the closure
         rets = [(e, k, rs) for e, k, rs in K.ret_assignments() if k in ('ok', 'val', 'callval')]
-        good = bool(rets)
+        good = bool(rets); where = [K]
         for e, k, rs in rets:
-            if k != 'ok': good = False; continue
-            ex = T.expr(K, rs['rv']['ops'][0], depth=14)
-            has = any(x[0] == 'call' and x[1] == 'evaluate' and len(x) > 4 and x[4] == c.bb for x in T.expr_walk(ex))
-            good = good and has and T.own_fields(ex)[-1:] == [('tuple', '0')]
-        if good: return K, c
-    return K, None
+            if k == 'ok':
+                ex = T.expr(K, rs['rv']['ops'][0], depth=14)
+                has = any(x[0] == 'call' and x[1] == 'evaluate' and len(x) > 4 and x[4] == c.bb for x in T.expr_walk(ex))
+                good = good and has and T.own_fields(ex)[-1:] == [('tuple', '0')] and all(T.WRAPPER_OWNER.search(a) for a, f in T.own_fields(ex)[:-1])
+            elif k == 'callval' and RESULT_COMB.search(rs['r'] or rs['f']) and len(rs['args']) == 2:
+                # the evaluation's own Result, its Ok payload mapped to `.0` by a second closure
+                rfs, rroot, rcalls = T.access_path(K, rs['args'][0], transparent=T.TRANSPARENT_NOCLONE)
+                K2, caps2 = closure_of(ctx, K, rs['args'][1])
+                is_map = re.search(r'::map::<', rs['r'] or rs['f']) is not None
+                ok2 = rroot == c.dst['l'] and not rfs and K2 is not None
+                if ok2:
+                    r2 = [(e2, k2, x2) for e2, k2, x2 in K2.ret_assignments()]
+                    ok2 = bool(r2)
+                    for e2, k2, x2 in r2:
+                        if is_map: ok2 = ok2 and k2 == 'val' and x2['rv']['k'] == 'use' and T.expr(K2, x2['rv']['ops'][0]) == ('place', 2, [('tuple', '0')])
+                        else: ok2 = ok2 and k2 == 'ok' and T.expr(K2, x2['rv']['ops'][0]) == ('place', 2, [('tuple', '0')])
+                good = good and ok2
+                if ok2: where.append(K2)
+            else: good = False
+        if good: return K, c, where
+    return K, None, []
+
+
+def records_used_ids(ctx, K, ev, where):
+    """a set insertion (append / extend / insert) into a captured set whose argument is what the evaluation `ev` used:
+    in K itself (argument derives from the call) or in the closure that receives the evaluation's payload (argument derives from its parameter)"""
+    for body in where:
+        for x in body.calls:
+            if not SET_ADD.search(T.strip_generics_tail(x.name)) or len(x.args) < 2 or T.access_path(body, x.args[0])[1] != 1: continue
+            sl = ctx.S.slice_operand(body, x.args[1])
+            if (body is K and ev in sl.call_objs) or (body is not K and 2 in sl.params): return True
+    return False
 
 
 def delegated_samples_call(ctx, b, e):
@@ -302,11 +335,10 @@ def kernel_rules(ctx):
             if not leaves: vbad.append((e, 'no source'))
             for kind, bi, obj in leaves:
                 if kind == 'call' and obj.item == 'map' and obj.path.endswith('Samples>::map') and T.access_path(b, obj.args[0])[1] == 2:
-                    K, ev = per_state_closure(ctx, b, obj, ty)
+                    K, ev, where = per_state_closure(ctx, b, obj, ty)
                     if ev is None: pbad.append((bi, 'the closure given to samples.map does not return `.0` of self.evaluate(state)')); continue
                     maps.append((obj, K, ev))
-                    adds = [x for x in K.calls if SET_ADD.search(T.strip_generics_tail(x.name)) and T.access_path(K, x.args[0])[1] == 1 and len(x.args) > 1 and ev in ctx.S.slice_operand(K, x.args[1]).call_objs]
-                    if K.name not in ids_slice.closures or not adds: ibad.append((e, 'used ids do not collect what self.evaluate(state) used'))
+                    if K.name not in ids_slice.closures or not records_used_ids(ctx, K, ev, where): ibad.append((e, 'used ids do not collect what self.evaluate(state) used'))
                 elif kind == 'place' and delegated_samples_call(ctx, b, obj) is not None and T.own_fields(obj)[-1:] == [('tuple', '0')]:
                     d = delegated_samples_call(ctx, b, obj)
                     if d not in ids_slice.call_objs: ibad.append((e, 'used ids do not come from the delegated evaluate_samples'))
